@@ -169,6 +169,7 @@ func (BridgeEngine) GenConfig(rng *rand.Rand, prop string, tier string) RunConfi
 	if tier == "thorough" {
 		rc.Steps = 80 + rng.IntN(320)
 	}
+	rc.Knobs["ext_start_height"] = fmt.Sprint([]int{1, 3, 40, 1000, 1000, 5_000_000}[rng.IntN(6)])
 	// swarm: a random subset of fault kinds
 	for _, f := range bridgeFaultKinds {
 		if rng.IntN(100) < 45 {
@@ -177,7 +178,7 @@ func (BridgeEngine) GenConfig(rng *rand.Rand, prop string, tier string) RunConfi
 	}
 	base := map[string]int{
 		"claim": 30, "confirm": 20, "send": 8, "cancel": 3, "incfee": 3, "batch": 5, "callout": 4, "exec": 8,
-		"ext-event": 10, "ext-height": 6, "relay": 6, "churn": 4, "gov": 2, "empty": 4, "jump": 1, "adv": 3,
+		"ext-event": 10, "ext-height": 6, "relay": 6, "churn": 4, "gov": 2, "empty": 4, "jump": 1, "adv": 3, "actor": 2, "rejoin": 1,
 	}
 	for _, k := range sortedKeys(base) {
 		v := base[k]
@@ -196,6 +197,9 @@ func (BridgeEngine) GenConfig(rng *rand.Rand, prop string, tier string) RunConfi
 		rc.Faults = appendUniq(rc.Faults, "crash-confirms")
 	case "C13":
 		rc.Faults = removeStr(rc.Faults, "conflicting-claim")
+		rc.Faults = appendUniq(rc.Faults, "crash-confirms")
+		rc.Weights["rejoin"] = rc.Weights["rejoin"]*4 + 4
+		rc.Weights["actor"] = rc.Weights["actor"]*2 + 2
 		rc.Weights["churn"] *= 4
 		rc.Weights["jump"] *= 3
 		rc.Faults = appendUniq(rc.Faults, "membership")
@@ -242,6 +246,9 @@ func (e BridgeEngine) Init(r *Run) error {
 	st := &BridgeSt{NUsers: r.Cfg.World.Users, Proposed: map[string]bool{}}
 	for ci, c := range r.Cfg.World.Chains {
 		cs := &ChainSt{CI: ci, Name: c.Name, Cfg: c, Ext: NewExtChain(c.Name, c.GravityID)}
+		if h := r.Cfg.KnobInt("ext_start_height", 0); h > 0 {
+			cs.Ext.Height = uint64(h)
+		}
 		for i := 0; i < c.Oracles*2+2; i++ {
 			cs.Oracles = append(cs.Oracles, &OracleActor{I: i, KeyIdx: OracleKeyIdx(ci, i), Stake: sdkmath.ZeroInt()})
 		}
